@@ -46,19 +46,20 @@ Section Effects.
     (lr_kind rc = OpRollback /\ lab = KRollback (lr_start rc)).
   Proof.
     intros T HJ Hin.
-    destruct T as [ks primary start ttl mc m ks' Hp | ks k l cv ks' Hl Hle Hc | ks start | ks l mc Hl].
+    destruct T as [ks primary start ttl mc m ks' Hp | ks k l cv ks' Hl Hle Hc | ks start | ks l mc Hl | ks l rf Hl Hff Hkf].
     - apply prewrite_key_success in Hp as (_ & _ & _ & Hrecs & _). left. now rewrite <- Hrecs.
     - unfold l_commit_key in Hc. destruct (cv <? l_min_commit (ll_rec l)); [discriminate|].
       destruct (find_start (ks_recs ks) (l_ts (ll_rec l))) as [r0|].
       + destruct (op_eqb (lr_kind r0) OpRollback); [discriminate|].
-        destruct (lr_ts r0 =? cv); inversion Hc; subst ks'; now left.
+        inversion Hc; subst ks'; now left.
       + inversion Hc; subst ks'. cbn [ks_recs] in Hin. apply In_add_rec in Hin as [->|Hin]; [|now left].
         right. left. cbn. split; [apply (J_lock_kind _ HJ l Hl) | reflexivity].
     - unfold l_rollback_key in Hin. destruct (find_start (ks_recs ks) start); [now left|].
       cbn [ks_recs] in Hin. apply In_add_rec in Hin as [->|Hin]; [|now left].
       right. right. cbn. auto.
     - now left.
-  Qed.
+      - now left.
+Qed.
 
   Lemma kreach_eff r y z :
     kreach r y z -> ks_inv2 y -> P5 y ->
@@ -267,6 +268,10 @@ Section Atomicity.
     { intro ks'. rewrite ls_at_lupd. apply bytes_eqb_neq in Hne. now rewrite Hne. }
     destruct (ks_lock (ls_at a primary)) as [l|].
     - destruct (negb (l_ts (ll_rec l) =? lts)); [reflexivity|].
+      destruct (match find_start (ks_recs (ls_at a primary)) lts with
+                | Some r => if op_eqb (lr_kind r) OpRollback then None else Some r
+                | None => None
+                end); [apply E|].
       destruct (lock_expired (ll_rec l) cur); [apply E|].
       destruct ((0 <? caller) && (l_min_commit (ll_rec l) <? wrap64 (caller + 1))); [apply E | reflexivity].
     - destruct (find_start (ks_recs (ls_at a primary)) lts) as [r|].
